@@ -900,6 +900,52 @@ def restore_every_id(ctx, rid: str) -> None:
     hdr = g_fs.nodes_of(lp)[0]
     addn = [n for w in adds for n in cfg_node_of(fs, w.node)]
     ok = unconditional_in_loop(g_fs, hdr, addn)
+    if not ok:
+        # the add may sit in a walk  cur = node; while cur is not None: add(cur); cur = cur.parent  (the node and its ancestors): the
+        # walk is entered at least once when it starts from a value that is known to be there (``if not node: raise`` before it)
+        sure = set()
+        for w_ in [x for x in ast.walk(lp) if isinstance(x, ast.While)]:
+            t_ = w_.test
+            var = None
+            if isinstance(t_, ast.Name):
+                var = t_.id
+            else:
+                cp = compare_parts(t_)
+                if cp and isinstance(cp[1], ast.IsNot) and isinstance(cp[2], ast.Constant) and cp[2].value is None and isinstance(cp[0], ast.Name):
+                    var = cp[0].id
+            if var is None:
+                continue
+            inits = [a for a in assignments_to(fs, var) if isinstance(a, (ast.Assign, ast.AnnAssign)) and getattr(a, "value", None) is not None
+                     and not any(a is y for st_ in w_.body for y in ast.walk(st_)) and any(a is y for y in ast.walk(lp))]
+            if len(inits) != 1 or not isinstance(inits[0].value, ast.Name):
+                continue
+            src = inits[0].value.id
+            known = any((isinstance(a_, ast.Name) and a_.id == src and pol_) or
+                        ((cp2 := compare_parts(a_)) is not None and isinstance(cp2[1], ast.IsNot) and norm(cp2[0]) == src and pol_)
+                        for a_, pol_ in guards_at(fs, w_.test))
+            if known:
+                for tn in g_fs.nodes_of(w_.test) or [n.id for n in g_fs.nodes if n.kind == "test" and n.ast is w_.test]:
+                    sure.add((tn, frozenset(i for st_ in w_.body for y in ast.walk(st_) for i in g_fs.nodes_of(y))))
+        if sure:
+            sure_map = dict(sure)
+            blocked = set(addn)
+            seen, work = set(), [(d, hdr) for d, lab in g_fs.succ[hdr] if lab in ("loop", "T")]
+            reached_hdr = False
+            while work:
+                nid, prev = work.pop()
+                if (nid, prev in sure_map.get(nid, ())) in seen or nid in blocked:
+                    continue
+                seen.add((nid, prev in sure_map.get(nid, ())))
+                if nid == hdr:
+                    reached_hdr = True
+                    break
+                for d, lab in g_fs.succ[nid]:
+                    if lab == "exc":
+                        continue
+                    if nid in sure_map and lab == "F" and prev not in sure_map[nid]:
+                        continue          # first evaluation of the walk's test: known to hold
+                    work.append((d, nid))
+            ok = not reached_hdr
     c.ob(rid, ok, fs, "restore-adds-every-id", "every iteration of the restore loop adds the state or raises" if ok else
          "an iteration of the restore loop can complete without adding the persisted state (and without raising)", lp)
 
